@@ -631,8 +631,8 @@ def two_appender_checks(ctx):
         if [bytes(rs[0]), bytes(rs[1])] != want:
             res.append(("one process, fd 1 re-pointed (dup2) from a %s to a %s between two stdout appenders: the first stream "
                         "carries %r and the second %r; appenders of processes whose stdout has always been a terminal / a "
-                        "pipe write %r / %r" % (("terminal", "pipe") if first_tty else ("pipe", "terminal"),
-                                                bytes(rs[0]), bytes(rs[1]), on_tty, on_pipe),
+                        "pipe write %r / %r" % ((("terminal", "pipe") if first_tty else ("pipe", "terminal"))
+                                                + (bytes(rs[0]), bytes(rs[1]), on_tty, on_pipe)),
                         {"case": describe(cs)}))
             break
     ctx["xcheck"]["repointed_stdout_processes"] = len(jobs2)
